@@ -3,8 +3,13 @@
 (* Judge for the reader walk of C08: every object of MC_Reader's universe  *)
 (* is generated as a component, every document over its keys (value        *)
 (* status ok / null / bad per key) is unmarshalled by the real generated   *)
-(* code, and the observation must be what the reader machine of Reader.tla *)
-(* computes - and thereby what its Prop layer demands.                     *)
+(* code.  What decides is the Prop layer (C08): a document with a fault is  *)
+(* rejected naming a faulty property, a document the schema allows decodes *)
+(* losslessly and re-encodes equivalently, a null where the schema has     *)
+(* none is free.  Beyond that the observation is compared with what the    *)
+(* step-level machines compute (Reader.ReadObj, Codec.WriteObj); a         *)
+(* difference there is reported as DRIFT - the model needs updating, the   *)
+(* property is not affected - and the case is accepted.                    *)
 (*   Read {case, obj, doc, ok, named, values, nulls, zeros, extras, wrong}      *)
 (*     named  : declared / document keys the error text names              *)
 (*     values : keys whose field holds the document's value                *)
@@ -27,6 +32,7 @@ Ev    == Trace[l]
 
 Init == l = 1 /\ stats = [accepted |-> 0, nontrivial |-> 0, rejected |-> 0]
 Machine == ReadObj(Ev.obj, Ev.doc)
+\* ---- Impl level: the observation is exactly what the step-level machines compute (a difference is model drift) ----
 Agrees(r) == /\ Ev.ok = r.ok /\ Ev.wrong = << >>
              /\ r.ok => /\ SeqToSet(Ev.values) = r.set /\ SeqToSet(Ev.nulls) = r.nulls
                         /\ SeqToSet(Ev.zeros) = r.zeros /\ SeqToSet(Ev.extras) = r.extras
@@ -45,16 +51,39 @@ Writes(r) == r.ok => /\ Ev.valid
                      /\ Cardinality(r.extras) <= 1
                      /\ Ev.toks = WriteObj(AsWritten(Ev.obj, r, TRUE), << >>, FALSE, TRUE).toks
                      /\ WriterOK(AsWritten(Ev.obj, r, TRUE), TRUE)
+ImplAgrees == Agrees(Machine) /\ (Agrees(Machine) => Writes(Machine))
+
+\* ---- Prop level (C08): what decides ----
+\* a document the schema allows: no fault, and no null where the schema has none (C08 is silent about those)
+DeclKeys  == DeclNames(Ev.obj)
+NullMisuse == { p.name : p \in { q \in Declared(Ev.obj) : q.name \in DOMAIN Ev.doc /\ Ev.doc[q.name] = "null" /\ ~q.nullable } }
+              \cup { k \in DOMAIN Ev.doc \ DeclKeys : Ev.doc[k] = "null" }
+PairsWritten == { Ev.toks[i] : i \in { k \in DOMAIN Ev.toks : Ev.toks[k].key # "," } }
+PropHolds ==
+    LET f == Faulty(Ev.obj, Ev.doc) IN
+    IF f # {} THEN ~Ev.ok /\ SeqToSet(Ev.named) \cap f # {}                       \* rejected, naming a faulty property
+    ELSE IF NullMisuse # {} THEN Ev.wrong = << >> \/ ~Ev.ok                          \* free: accepted or rejected
+    ELSE /\ Ev.ok /\ Ev.wrong = << >>                                              \* valid: decodes losslessly ...
+         /\ SeqToSet(Ev.values) = { k \in DOMAIN Ev.doc \cap DeclKeys : Ev.doc[k] = "ok" }
+         /\ SeqToSet(Ev.nulls)  = { k \in DOMAIN Ev.doc \cap DeclKeys : Ev.doc[k] = "null" }
+         /\ SeqToSet(Ev.zeros)  = {}
+         /\ SeqToSet(Ev.extras) = (IF Ev.obj.addl = "typed" THEN DOMAIN Ev.doc \ DeclKeys ELSE {})
+         /\ Ev.valid                                                               \* ... and re-encodes equivalently
+         /\ PairsWritten = { [key |-> k, v |-> IF Ev.doc[k] = "null" THEN "null" ELSE "value"] :
+                               k \in { x \in DOMAIN Ev.doc : x \in DeclKeys \/ Ev.obj.addl = "typed" } }
+         /\ Cardinality(PairsWritten) = Cardinality({ k \in DOMAIN Ev.toks : Ev.toks[k].key # "," })
 Read == /\ l <= Len(Trace) /\ Ev.ev = "Read"
-        /\ Agrees(Machine)
-        /\ Writes(Machine)
+        /\ PropHolds
         /\ ReadRefinesProp(Ev.obj, Ev.doc)                      \* (the design check, once more on the replayed case)
+        /\ IF ImplAgrees THEN TRUE
+           ELSE PrintT(ToJson([verdict |-> "DRIFT", case |-> Ev.case, at |-> l, event |-> [ev |-> "Read"],
+                               why |-> [machineOK |-> Machine.ok, machineErr |-> Machine.err, reads |-> Agrees(Machine)]]))
         /\ stats' = [stats EXCEPT !.accepted = @ + 1, !.nontrivial = @ + (IF DOMAIN Ev.doc # {} THEN 1 ELSE 0)]
         /\ l' = l + 1
 Step == Read
 Skip == /\ l <= Len(Trace) /\ ~ENABLED Step
         /\ PrintT(ToJson([verdict |-> "REJECT", case |-> Ev.case, at |-> l, event |-> [ev |-> Ev.ev], kf |-> "",
-                          why |-> [machineOK |-> Machine.ok, machineErr |-> Machine.err, reads |-> Agrees(Machine), writes |-> IF Agrees(Machine) THEN Writes(Machine) ELSE FALSE]]))
+                          why |-> [machineOK |-> Machine.ok, machineErr |-> Machine.err, faulty |-> Faulty(Ev.obj, Ev.doc), nullMisuse |-> NullMisuse]]))
         /\ stats' = [stats EXCEPT !.rejected = @ + 1]
         /\ l' = l + 1
 Finish == /\ l = Len(Trace) + 1
